@@ -807,6 +807,12 @@ def run(tier, rng):
             if tag.startswith('call:') and f['class'].startswith('value-type') and tag.split(':')[1].split('(')[0] in ('first', 'last'):
                 continue        # first()/last() of a column that is itself reported under its column signature
             lfail.setdefault(f'ledger:{tag}:{f["class"]}', (c, f))
+    # a FROM-subquery that hands through a column whose own declaration is untruthful shows the same (announced, got) class as
+    # the query of that column of that table, which is reported under the column's signature; anything else is the subquery's
+    for sig in [s for s in lfail if s.startswith('ledger:subquery:')]:
+        tname, cls = sig.split(':', 3)[2:]
+        if any(s.startswith(f'ledger:column:{tname}.') and s.endswith(':' + cls) for s in lfail):
+            del lfail[sig]
     for sig, (c, f) in lfail.items():
         violations.append(core.Violation(
             'ledger-sweep', f'{f["tag"]}: {f["class"]} in `{f["where"]}`: {f["value"]}',
